@@ -5,6 +5,7 @@ import (
 	"os"
 	"slices"
 	"sync"
+	"sync/atomic"
 
 	"github.com/monshunter/goat/pkg/log"
 	"github.com/monshunter/goat/pkg/tracking/increment"
@@ -24,8 +25,9 @@ type PatchExecutor struct {
 	goModule         string
 	goatImportPath   string
 	goatPackageAlias string
-	// changed is true if any `// + goat:delete`, `// + goat:insert` is found
-	changed bool
+	// changed is true if any `// + goat:delete`, `// + goat:insert` is found.
+	// It is set from the prepareContent workers, hence atomic.
+	changed atomic.Bool
 }
 
 // NewPatchExecutor creates a new patch executor
@@ -52,7 +54,7 @@ func (p *PatchExecutor) Run() error {
 		return err
 	}
 
-	if !p.changed {
+	if !p.changed.Load() {
 		log.Infof("No files with +goat:delete, +goat:insert found, no need to apply")
 		return nil
 	}
@@ -177,7 +179,9 @@ func (p *PatchExecutor) prepareContent(file string) (goatFile, error) {
 		return goatFile{}, err
 	}
 	updated = updated || count > 0
-	p.changed = p.changed || updated
+	if updated {
+		p.changed.Store(true)
+	}
 	// handle // + goat:insert
 	count, content, err = handleGoatInsert(p.cfg.PrinterConfig(), content, p.goatImportPath, p.goatPackageAlias)
 	if err != nil {
@@ -185,7 +189,9 @@ func (p *PatchExecutor) prepareContent(file string) (goatFile, error) {
 		return goatFile{}, err
 	}
 	updated = updated || count > 0
-	p.changed = p.changed || updated
+	if updated {
+		p.changed.Store(true)
+	}
 	// handle // + goat:generate
 	count, content, err = resetGoatGenerate(content)
 	if err != nil {
